@@ -245,8 +245,69 @@ func child(kind string, args []string) {
 			runEdit(line)
 		}
 	}
+	if kind == "conv" {
+		_ = os.WriteFile(out+".progress", []byte("runs of malformed frames"), 0o644)
+		badRuns()
+	}
 	os.Remove(out + ".progress")
 	run.Export(out)
+}
+
+// badRuns: AlwaysAlive of Lsp.tla over RUNS of malformed frames - the conversations of the model interleave malformed
+// frames with good ones; here every malformed kind is sent n times in a row (and all kinds in rotation), after which the
+// server must still apply a change and answer a request.
+func badRuns() {
+	kinds := []string{"headerZeroLength", "headerNonNumeric", "headerOversize", "headerNegative", "headerNoLength", "jsonArray", "jsonString", "emptyObject", "idNoMethod", "mixed"}
+	all := kinds[:len(kinds)-1]
+	for _, k := range kinds {
+		for _, n := range []int{2, 5, 6, 13, 64} {
+			h := newHarness()
+			uri := "file:///runs.sql"
+			fail := func(sig, obs string) {
+				run.Violate(core.Violation{Sig: sig + "|" + k, Clause: "the server keeps running and answering for any sequence of messages, including bad headers",
+					Case: map[string]any{"kind": "bad-run", "malformed": k, "run_length": n}, Observe: obs})
+			}
+			_, f := h.send(frame(`{"jsonrpc":"2.0","method":"textDocument/didOpen","params":{"textDocument":{"uri":`+q(uri)+`,"languageId":"sql","version":1,"text":"SELECT 1"}}}`), false)
+			var bad []byte
+			for i := 0; i < n; i++ {
+				mk := k
+				if k == "mixed" {
+					mk = all[i%len(all)]
+				}
+				bad = append(bad, malformedFrame(mstep{M: mk, ID: 900 + i})...)
+			}
+			if f == "" {
+				_, f = h.send(bad, false)
+			}
+			run.Eval(1)
+			run.Nontrivial(fmt.Sprintf("badrun %s %d", k, n))
+			if f != "" {
+				fail("server-died|after-malformed-run", f)
+				h.close()
+				continue
+			}
+			msgs, f := h.send(append(frame(`{"jsonrpc":"2.0","method":"textDocument/didChange","params":{"textDocument":{"uri":`+q(uri)+`,"version":2},"contentChanges":[{"text":"SELECT 2"}]}}`),
+				frame(`{"jsonrpc":"2.0","id":4242,"method":"textDocument/hover","params":{"textDocument":{"uri":`+q(uri)+`},"position":{"line":0,"character":1}}}`)...), false)
+			if f != "" {
+				fail("server-died|after-malformed-run", f)
+				h.close()
+				continue
+			}
+			answered := false
+			for _, m := range msgs {
+				if string(m.ID) == "4242" {
+					answered = true
+				}
+			}
+			if !answered {
+				fail("request-unanswered|after-malformed-run", fmt.Sprintf("%d messages, none with id 4242", len(msgs)))
+			}
+			if got, ok := h.srv.Documents().GetContent(uri); !ok || got != "SELECT 2" {
+				fail("mirror-differs|after-malformed-run", fmt.Sprintf("%q (open=%v)", got, ok))
+			}
+			h.close()
+		}
+	}
 }
 
 // ---------------------------------------------------------------------------
